@@ -64,6 +64,7 @@ class Scn:
         self.name, self.cap, self.buf_size, self.ubuf_size = name, cap, buf_size, ubuf_size
         self.fill, self.mutex = fill, mutex
         self.groups, self.extra, self.vars = [], [], []
+        self.gnames = {}           # group index -> name (str/bytes); absent = unnamed (NULL)
         self.scripts = {}          # (kind, ci, vi) -> [Res]
         self.rd = self.wr = self.lk = self.ul = None
         self.ops = []
@@ -132,8 +133,9 @@ class Scn:
                 tag, hx(c.name), hxo(c.descr), int(c.w), int(c.r), int(c.run), int(c.t),
                 int(c.need_all), int(c.only_test), int(c.implicit), len(c.vars),
                 ' '.join(str(v.slot) for v in c.vars))
-        for g in self.groups:
-            L.append('grp')
+        for gi, g in enumerate(self.groups):
+            gn = self.gnames.get(gi)
+            L.append('grp' if gn is None else 'grp ' + hx(gn))
             for c in g:
                 L.append(cl('cmd', c).rstrip())
         for c in self.extra:
